@@ -10,7 +10,7 @@ import ClaripyProofs.Lemmas.AST.MinMaxSound
 
 What is proved here, for EVERY width, constant, sub-expression and assignment (no bound):
 
-* `C01_rules_sound` — each of the 67 rewrite schemas of `Claripy.AST.R.all` (transcribed from
+* `C01_rules_sound` — each of the 71 rewrite schemas of `Claripy.AST.R.all` (transcribed from
   claripy/simplifications.py and ast/bool.py:If; the correspondence check ties them to the code) replaces
   a well-typed node by a tree with the same SMT-LIB value.
 * the bridge lemmas `Claripy.BV.*_spec` — the Python-int formulas of backend_concrete/bv.py used for eager
